@@ -283,6 +283,9 @@ class Verifier:
                     spec_val = calls.eval_clause(it, c.result_fn, ns_old)
                     ctx.oblige(f'{short}/post/result', it.eq(result, spec_val), where=short)
                 ctx.oblige(f'{short}/frame', calls.frame_condition(it, c, bound, old), where=short)
+                if cc is not None and cc.shape is not None and 'self' in bound:
+                    ctx.oblige(f'{short}/separation', calls.separation_ok(bound['self']),
+                               where=short)
                 for exc, (kind, cfn) in c.raises.items():
                     if kind == 'iff' and cfn is not None:
                         ctx.oblige(f'{short}/noexc/{exc.__name__}',
